@@ -589,6 +589,20 @@ def dict_update(it, d, other, node=None):
                     d.set_entry(k, z3.simplify(z3.Or(_zt(g), _zt(old[0]))), merge(g, v, old[1]))
     elif isinstance(other, OpaqueVal):
         raise Unsupported('update from opaque')
+    elif isinstance(other, (PList, list, tuple)):
+        items = other.values() if isinstance(other, PList) else list(other)
+        for pair in items:
+            kv = list(pair.values()) if isinstance(pair, PList) else list(pair) if isinstance(pair, (tuple, list)) else None
+            if kv is None or len(kv) != 2:
+                raise Unsupported('dict.update from a sequence of non-pairs')
+            k = kv[0]
+            if isinstance(k, (SInt, SStr, SEnum)):
+                raise Unsupported('symbolic key stored into literal dict')
+            d.set_entry(_hashkey(k), True, kv[1])
+    elif type(other).__name__ == 'GenVal':
+        # a generator of (key, value) pairs: run it (module-level table construction)
+        out = it.run_generator(other)
+        dict_update(it, d, out, node)
     else:
         raise Unsupported('dict.update(%s)' % type(other).__name__)
 
